@@ -17,6 +17,7 @@ PROPS = {
     "C07": dict(families=["trynew"], pred="C07"),
     "C08": dict(families=["order", "acq"], pred="C08"),
     "C09": dict(families=["acq", "fault"], pred="C09"),
+    "C10": dict(families=["poison", "panic"], pred="C10"),
     "C11": dict(families=["panic"], pred="C11"),
     "C12": dict(families=["fault"], pred="C12"),
     "C13": dict(families=["acq"], pred="C13"),
@@ -244,6 +245,7 @@ def t1_property(pid, tier, seed, replay):
 
     key = tree_hash([ "/repo/src", os.path.join(ROOT, "harness", "src"), os.path.join(ROOT, "lean", "HLV", "Model"), os.path.join(ROOT, "lean", "Main.lean")])
     total = 0; nontriv = 0; disagreements = []; direct = []; samples = []; dist = {}
+    n_direct_seen = 0; known_hits = {}; known_first = {}
     traces_validated = 0
 
     # regression corpus first
@@ -258,7 +260,13 @@ def t1_property(pid, tier, seed, replay):
         fails, n = run_pred(cfg["pred"], tmpc, tmpi)
         total += n; traces_validated += n
         for idx, msg in fails:
-            direct.append(dict(case=corpus_lines[idx], impl=a[idx], model=b[idx] if idx < len(b) else None, message=msg, source="corpus"))
+            n_direct_seen += 1
+            hit = next((f for f in known.get("findings", []) if finding_matches(f, pid, corpus_lines[idx], msg)), None)
+            if hit:
+                known_hits[hit["id"]] = known_hits.get(hit["id"], 0) + 1
+                known_first.setdefault(hit["id"], dict(case=corpus_lines[idx], impl=a[idx], message=msg))
+            else:
+                direct.append(dict(case=corpus_lines[idx], impl=a[idx], model=b[idx] if idx < len(b) else None, message=msg, source="corpus"))
         for idx, (x, y) in enumerate(zip(a, b)):
             if x != y:
                 disagreements.append(dict(case=corpus_lines[idx], impl=x, model=y, source="corpus"))
@@ -288,32 +296,26 @@ def t1_property(pid, tier, seed, replay):
         fails, n = run_pred(cfg["pred"], r["cases"], r["impl"])
         traces_validated += n
         for idx, msg in fails:
-            if len(direct) < 200:
+            n_direct_seen += 1
+            hit = next((f for f in known.get("findings", []) if finding_matches(f, pid, c[idx], msg)), None)
+            if hit:
+                known_hits[hit["id"]] = known_hits.get(hit["id"], 0) + 1
+                if hit["id"] not in known_first:
+                    known_first[hit["id"]] = dict(case=c[idx], impl=a[idx], message=msg)
+            elif len(direct) < 200:
                 direct.append(dict(case=c[idx], impl=a[idx], model=m[idx], message=msg, source=fam))
-            else:
-                direct.append(None)
 
     n_dis_total = len(disagreements)
     disagreements = [d for d in disagreements if d]
-    n_direct_total = len(direct)
-    direct = [d for d in direct if d]
+    n_direct_total = n_direct_seen
 
     # verdict
     rc = 0
     out_lines = []
-    reported_known = set()
-    new_direct = []
-    for d in direct:
-        hit = None
-        for f in known.get("findings", []):
-            if finding_matches(f, pid, d["case"], d["message"]):
-                hit = f; break
-        if hit:
-            if hit["id"] not in reported_known:
-                reported_known.add(hit["id"])
-                out_lines.append(f"KNOWN-FINDING: property={pid} {hit['what']}")
-        else:
-            new_direct.append(d)
+    for f in known.get("findings", []):
+        if f["id"] in known_hits:
+            out_lines.append(f"KNOWN-FINDING: property={pid} {f['what']} [{known_hits[f['id']]} cases, e.g. {known_first[f['id']]['case']}]")
+    new_direct = direct
     if new_direct:
         d = min(new_direct, key=lambda d: len(d["case"]))
         p = write_replay(pid, "direct", dict(property=pid, kind="direct violation on the real code",
@@ -368,6 +370,7 @@ def t1_property(pid, tier, seed, replay):
                   disagreements_checked=total,
                   correspondence_disagreements=n_dis_total,
                   predicate_failures=n_direct_total,
+                  known_finding_hits=known_hits,
                   distribution=dist,
                   theorems=evidence.get("theorems", []),
                   exhaustive=True,
